@@ -69,6 +69,11 @@ def base_tree(rng):
         {"path": "script.sh", "data": "#!/bin/sh\necho script-output\n", "mode": 0o755},
         {"path": "\xae.txt", "data": "latin\n"},
         {"path": "arch.zip", "data": _zip_with_mail()},
+        # directories that server-side features are apt to look into
+        {"path": ".icons", "kind": "dir"}, {"path": ".icons/custom.gif", "data": "GIF89a-custom"},
+        {"path": ".cap", "kind": "dir"}, {"path": ".cap/a.txt", "data": "Name=Alpha\n"},
+        {"path": ".well-known", "kind": "dir"}, {"path": ".well-known/x.txt", "data": "wk\n"},
+        {"path": "PYGOPHERD-HTTPPROTO-ICONS", "kind": "dir"}, {"path": "GEMINI-QUERY", "kind": "dir"},
     ]
     for e in tree:
         e["mtime"] = t
@@ -371,6 +376,22 @@ def run(tier):
             s = "/" + nm
             data, tls = gen.request_bytes(proto, s)
             requests.append((proto, s, 1, False, data, tls, False))
+    # in-band prefixes the protocols interpret themselves, followed by climbers (these paths may bypass handler selection)
+    for pre in ("/PYGOPHERD-HTTPPROTO-ICONS", "/GEMINI-QUERY", "/wap/PYGOPHERD-HTTPPROTO-ICONS", "/.icons", "/.cap"):
+        for tail in ("/../../secret.txt", "/../secret.txt", "/..", "/custom.gif/../../../secret.txt", "/%2e%2e/%2e%2e/secret.txt",
+                     "/..%2f..%2fsecret.txt", "/text.gif/../../secret.txt", "/../../secretdir/x.txt"):
+            for proto in ("http", "https", "wap", "gemini", "spartan", "gopher"):
+                s = pre + tail
+                if proto == "gopher":
+                    data, tls = (s.encode() + b"\r\n", False)
+                elif proto == "gemini":
+                    data, tls = (b"gemini://gopher.example" + s.encode() + b"\r\n", True)
+                elif proto == "spartan":
+                    data, tls = (b"gopher.example " + s.encode() + b" 0\r\n", False)
+                else:
+                    pfx = b"/wap" if proto == "wap" else b""
+                    data, tls = (b"GET " + pfx + s.encode() + b" HTTP/1.0\r\n\r\n", proto == "https")
+                requests.append((proto, "<raw>" + s, 1, False, data, tls, False))
     # raw WAP request targets next to the /wap prefix (sibling-of-root spellings)
     for tgt in ["/wap2/secret.txt", "/wap2/secret.txt.abstract", "/wap../secret.txt", "/wap", "/wap2", "/wap%2Fa.txt", "/wapdir1/c.txt",
                 "/wap/../secret.txt", "/%77ap/a.txt", "/wap/wap/a.txt"]:
